@@ -144,6 +144,22 @@ def run(cmd, cwd=None, env=None, timeout=3000):
     return p.returncode, p.stdout
 
 
+def fail_oracles(out):
+    """Sub-oracle ids of the FAIL lines of a check run (committed-replay failures are marked with *)."""
+    subs = []
+    for l in out.splitlines():
+        if l.startswith('FAIL (committed replay'):
+            rest = l.split(') ', 1)[1] if ') ' in l else ''
+            sub = rest.split(':', 1)[0].split(' ')[0] + '*'
+        elif l.startswith('FAIL '):
+            sub = l.split(' ')[1]
+        else:
+            continue
+        if sub not in subs:
+            subs.append(sub)
+    return subs
+
+
 def stable_tests():
     b = json.load(open('/root/.vp/BASELINE.json'))
     return set(b['stable_pass'])
@@ -226,9 +242,9 @@ def main(argv):
             for p in props:
                 code, out = run([os.path.join(HERE, 'check'), p, tier], cwd=HERE, env=env)
                 viol = [l for l in out.splitlines() if l.startswith('VIOLATION')]
-                fails = [l[:160] for l in out.splitlines() if l.startswith('FAIL')]
+                fails = fail_oracles(out)
                 if code == 1 and viol:
-                    killed_by.append({'prop': p, 'oracles': [f.split(' ')[1] for f in fails][:6]})
+                    killed_by.append({'prop': p, 'oracles': fails[:6]})
                 elif code == 2:
                     survived.append(p + '(harness error)')
                 else:
